@@ -42,6 +42,15 @@ def now(E):
     return wget(E, 'now', lambda: E.fresh('now', z3.RealSort()))
 
 
+def throw_oserror(E, origin):
+    """an OSError of SOME subclass (BlockingIOError for a busy flock, PermissionError, ENOLCK as plain OSError,
+    ...): code that only handles particular subclasses lets the others through"""
+    c = E.fresh('oserror_class', ClsS)
+    E.need_hierarchy()
+    E.assume(sub(c, EXC['OSError'].term))
+    raise PyExc(VExc(c, (), info={'origin': origin}))
+
+
 def advance(E, lo=None, hi=None, exact=None):
     """Blocking stubs move the ghost clock; computation takes no ghost time."""
     t0 = now(E)
@@ -395,7 +404,7 @@ def install_os(E):
         E.effect('os.open', path, flags)
         tag = E.choose([('ok', None), ('OSError', None)], 'os.open')
         if tag == 'OSError':
-            E.throw('OSError', origin='os.open')
+            throw_oserror(E, 'os.open')
         w = fs(E)
         fd = E.fresh('fd', z3.IntSort())
         E.assume(fd >= 0)
@@ -426,7 +435,7 @@ def install_os(E):
         E.w['my_fds'] = z3.Store(E.w['my_fds'], fd.t, False)
         tag = E.choose([('ok', None), ('OSError', None)], 'os.close')
         if tag == 'OSError':
-            E.throw('OSError', origin='os.close')
+            throw_oserror(E, 'os.close')
         return NONE
 
     def _other(name):
@@ -464,7 +473,7 @@ def install_os(E):
         if op & LOCK['LOCK_UN']:
             tag = E.choose([('ok', None), ('OSError', None)], 'flock(LOCK_UN)')
             if tag == 'OSError':
-                E.throw('OSError', origin='flock.unlock')
+                throw_oserror(E, 'flock.unlock')
             E.w['flock_owner'] = z3.If(w['flock_owner'] == ofd, z3.IntVal(0), w['flock_owner'])
             return NONE
         excl = bool(op & LOCK['LOCK_EX']) and not (op & LOCK['LOCK_SH'])
@@ -473,7 +482,7 @@ def install_os(E):
         tag = E.choose([('ok', None), ('OSError', None)], 'flock(lock)')
         if tag == 'OSError':
             # EWOULDBLOCK (held by another OFD, LOCK_NB) or an injected fault
-            E.throw('OSError', origin='flock.lock')
+            throw_oserror(E, 'flock.lock')
         # another process/object may have taken or dropped the lock meanwhile: only OUR ofd is stable
         cur = E.fresh('flock_owner', z3.IntSort())
         E.assume(z3.Implies(w['flock_owner'] == ofd, cur == ofd))
